@@ -792,7 +792,7 @@ impl GraphStore {
                 self.edge_properties@ == old(self).edge_properties@ && self.edge_endpoints@ == old(self).edge_endpoints@
                     && self.edge_type_ids@ == old(self).edge_type_ids@ && self.edge_type_table@ == old(self).edge_type_table@,
             decreases eks@.len() - eks_i
-//@before "for eid in empty_logs {"
+//@beforeloop 3
         let ghost m1 = self.edge_version_log@;
         proof {
             assert forall|e: EdgeId| m0.contains_key(e) implies esame(m1[e]@, m0[e]@, min_version) && log_sorted(m1[e]@) by {
